@@ -10,7 +10,7 @@ import env
 import gen
 import oracles
 from fakes import MISSING, World
-from boracles import unit_buf_twin, unit_c07_scenarios, unit_buf_conflict
+from boracles import unit_buf_twin, unit_c07_scenarios, unit_buf_conflict, unit_buf_io_faults, unit_c06_handles
 from conc import unit_conc  # noqa: F401
 from c10 import unit_c10_faults, unit_c10_filename  # noqa: F401
 from c18 import unit_c18_family, unit_c18_attr, unit_c18_routes  # noqa: F401
@@ -46,9 +46,29 @@ def seq_setup(rng, vg, profile):
     return is_dict, ops
 
 
+class plain_mode:
+    """JSON families with thread locks off and write_concern=False: saves write the file in
+    place (`open(filename, "wb")`) instead of temp file + os.replace"""
+
+    def __init__(self, fam, on):
+        self.fam = fam
+        self.on = on and fam.store == "json"
+
+    def __enter__(self):
+        if self.on:
+            for cls in self.fam.classes:
+                cls.disable_multithreading()
+
+    def __exit__(self, *a):
+        if self.on:
+            for cls in self.fam.classes:
+                cls.enable_multithreading()
+
+
 PROFILES = {
     # name: (p_read, p_miss, p_ext, p_invalid)
     "single": (0.35, 0.2, 0.0, 0.0),
+    "plainfile": (0.3, 0.2, 0.0, 0.0),
     "fresh": (0.3, 0.15, 0.0, 0.0),
     "multi": (0.3, 0.15, 0.0, 0.0),
     "ext": (0.45, 0.15, 0.18, 0.0),
@@ -79,7 +99,8 @@ def unit_seq_corr(args):
         return ops
 
     try:
-        ops, lines = drive.generate(ns, fam, make_gen, n_steps, setup)
+        with plain_mode(fam, profile == "plainfile"):
+            ops, lines = drive.generate(ns, fam, make_gen, n_steps, setup)
         got = model_driver(ns).run(drive.op_lines(ops, fam.index))
     except Exception:  # noqa: BLE001
         return dict(kind="corr", fam=fam_index, seed=seed, profile=profile, crash=traceback.format_exc())
@@ -151,10 +172,10 @@ def unit_buf_corr(args):
     return res
 
 
-def run_shadow(ns, fam, ops, stop_on_violation=True):
+def run_shadow(ns, fam, ops, stop_on_violation=True, plain=False):
     """replay a fixed op list under the shadow oracle"""
     drive.reset_class_state(ns)
-    with drive.Scratch() as tmp:
+    with drive.Scratch() as tmp, plain_mode(fam, plain):
         world = World(ns, fam, tmp)
         sh = oracles.Shadow(ns, world, fam)
         for i, op in enumerate(ops):
@@ -175,7 +196,7 @@ def unit_seq_oracle(args):
     p_read, p_miss, p_ext, p_invalid = PROFILES[profile]
     drive.reset_class_state(ns)
     try:
-        with drive.Scratch() as tmp:
+        with drive.Scratch() as tmp, plain_mode(fam, profile == "plainfile"):
             world = World(ns, fam, tmp)
             sh = oracles.Shadow(ns, world, fam)
             g = gen.ProgGen(rng, sh, fam, p_read=p_read, p_miss=p_miss, p_ext=p_ext, p_invalid=p_invalid,
@@ -200,12 +221,14 @@ def unit_seq_oracle(args):
         # minimise: the same violation tag must survive
         tags = set(sh.violations[0][0])
 
+        plain = profile == "plainfile"
+
         def still(cand):
-            s2, _ = run_shadow(ns, fam, cand)
+            s2, _ = run_shadow(ns, fam, cand, plain=plain)
             return bool(s2.violations) and bool(set(s2.violations[0][0]) & tags)
 
         small = drive.shrink(ops, still) if len(ops) <= 60 else ops
-        s2, _ = run_shadow(ns, fam, small)
+        s2, _ = run_shadow(ns, fam, small, plain=plain)
         v = s2.violations[0] if s2.violations else sh.violations[0]
-        res["violations"].append(dict(props=list(v[0]), msg=v[1], ops=small, fam=fam.short))
+        res["violations"].append(dict(props=list(v[0]), msg=v[1], ops=small, fam=fam.short, extra=dict(plain=plain)))
     return res
